@@ -276,6 +276,28 @@ def structural_faults(rnd, gt, sp):
                 "addr_const" in e for e in exprs(d0)), lambda d, h=hexs: [
                 e for e in exprs(d) if "addr_const" in e][0][
                 "addr_const"].__setitem__("symbol_uuid", h))
+    # AuxData tables whose type names other producers might write: blanks
+    # after commas, names without a codec here, names outside the grammar.
+    # Tables are opaque to load; the IR it returns must still be savable.
+    for i, (tn, data) in enumerate([
+            ("mapping<UUID, uint64_t>", "00" * 8),
+            ("mapping<UUID, uint64_t>",
+             "01" + "00" * 7 + "22" * 16 + "05" + "00" * 7),
+            ("variant<set<string>, foo>", "00" * 8 + "02" + "00" * 7 +
+             "01" + "00" * 7 + "7a" + "01" + "00" * 7 + "61"),
+            ("sequence<string >", "01" + "00" * 7 + "01" + "00" * 7 + "61"),
+            ("tuple<string,  Offset>", "00" * 8 + "11" * 16 + "00" * 8),
+            ("foo", "6a756e6b"), ("", ""), ("<", ""), ("sequence<>", ""),
+            ("mapping<string>", "00" * 8), ("a,b", "78"),
+            ("sequence<" * 40 + "int8_t" + ">" * 40, "00" * 8),
+            ("string", "02" + "00" * 7 + "ff fe".replace(" ", "")),
+            ("sequence<uint8_t>", "ff" * 8)]):
+        def aux_edit(d, tn=tn, data=data, i=i):
+            holder = d if (i % 2 == 0 or not d["modules"]) \
+                else d["modules"][-1]
+            holder.setdefault("aux_data", {})["odd%d" % i] = {
+                "type_name": tn, "data": data}
+        add("aux-type-name:%d" % i, True, aux_edit)
     # empty one-ofs
     def empty_block(d):
         b = blocks(d)[0]
